@@ -911,6 +911,8 @@ EGLPNUM_TYPENAME_QSLIB_INTERFACE EGLPNUM_TYPENAME_QSdata *EGLPNUM_TYPENAME_QScop
 	CHECKRVALG (rval, CLEANUP);
 
 	ILLstring_reporter_copy (&p2->qslp->reporter, &p->qslp->reporter);
+	/* the reporter's period belongs to it */
+	p2->lp->iterskip = p->lp->iterskip;
 
 CLEANUP:
 
